@@ -3,8 +3,7 @@ Model of the farm module's genesis export / validation / import (modules/farm/ge
 ExportGenesis / InitGenesis, types/genesis.go ValidateGenesis), on top of `Irismod.Farm`.
 
 The document carries the parameters, every pool with its reward rules, every farmer record,
-the pool sequence and the escrow infos of pending community-pool proposals (always empty in the
-operation alphabet, see C05's assumptions; not part of the model document).
+the pool sequence and the escrow infos of pending community-pool proposals.
 
 * `ExportGenesis` iterates the pool store (key `0x06 ++ id`: ascending pool id bytes), attaches
   `GetRewardRules`, then iterates the farmer store (key `0x03 ++ address ++ poolId`).
@@ -16,7 +15,9 @@ operation alphabet, see C05's assumptions; not part of the model document).
   for every rule, `SetPool`, and `EnqueueActivePool` iff `ctx.BlockHeight() ≤ pool.EndHeight`
   (commit 0c5f83b; before, `!Expired(ctx, pool)` consulted the very queue being rebuilt and
   dropped a pool ending at the import height); per farmer record, panic unless its pool exists, `SetFarmInfo`;
-  `SetSequence`; `SetParams` (panics on an invalid tax rate).
+  per escrow info `SetEscrowInfo` (key `0x07 ++ bigendian(proposal id)`; `ValidateGenesis` does not
+  look at the escrow infos); `SetSequence`; `SetParams` (panics on an invalid tax rate).
+* `ExportGenesis` appends `GetAllEscrowInfo`: the escrow store in key order = ascending proposal id.
 
 Abstractions: the ghost fields of `Rule` (history variables, not module state) travel with the
 record; the order of the farmer records in the real document is that of the bech32 address
@@ -37,6 +38,7 @@ structure Genesis where
   pools   : List (PoolId × Pool) := []
   farmers : List ((Addr × PoolId) × Farmer) := []
   seq     : Nat := 0
+  escrow  : List (Nat × Escrow) := []
   deriving Repr, Inhabited
 
 /-- `ValidatepPoolId`: the sequence number of a pool id -/
@@ -55,8 +57,20 @@ def exportFarmers (s : State) : List ((Addr × PoolId) × Farmer) :=
     (sortDedup (tail (AMap.keys s.farmers) a)).filterMap fun id =>
       (AMap.get? s.farmers (a, id)).map fun f => ((a, id), f)
 
+/-- insertion into an ascending duplicate-free list of proposal ids -/
+def insNat (x : Nat) : List Nat → List Nat
+  | [] => [x]
+  | y :: ys => if x < y then x :: y :: ys else if x = y then y :: ys else y :: insNat x ys
+
+/-- the distinct members of `l` in ascending order (the escrow store's iteration order) -/
+def sortNat (l : List Nat) : List Nat := l.foldr insNat []
+
+/-- `GetAllEscrowInfo` -/
+def exportEscrow (s : State) : List (Nat × Escrow) :=
+  (sortNat (AMap.keys s.cp.escrow)).filterMap fun pid => (AMap.get? s.cp.escrow pid).map fun e => (pid, e)
+
 def exportGenesis (s : State) : Genesis :=
-  { params := s.params, pools := exportPools s, farmers := exportFarmers s, seq := s.seq }
+  { params := s.params, pools := exportPools s, farmers := exportFarmers s, seq := s.seq, escrow := exportEscrow s }
 
 /-! ### types.ValidateGenesis -/
 
@@ -120,17 +134,26 @@ def importFarmers (s : State) : List ((Addr × PoolId) × Farmer) → Except Err
 /-- `Params.Validate` as called by `SetParams` (fee coin valid; tax rate strictly inside (0,1)) -/
 def validParams (p : Params) : Bool := decide (0 < p.tax.raw) && decide (p.tax.raw < precision)
 
+/-- `SetEscrowInfo` for every escrow info of the document -/
+def importEscrow (s : State) (l : List (Nat × Escrow)) : State :=
+  { s with cp := { s.cp with escrow := l.foldl (fun m e => AMap.set m e.1 e.2) s.cp.escrow } }
+
+/-- the emptied module store -/
+def wiped (env : State) : State :=
+  { env with pools := [], farmers := [], queue := [], seq := 0, resp := [], cp := { env.cp with escrow := [] } }
+
 /-- `InitGenesis` on an emptied module store at the height of `env`; `env` supplies what the
-module genesis does not touch (bank, block height, the ghost ledger) -/
+module genesis does not touch (bank, block height, the ghost ledger, the community pool and the
+gov proposals) -/
 def importGenesis (env : State) (g : Genesis) : Except Err State :=
   match validateGenesis g with
   | .error _ => pnc "invalid genesis"
   | .ok _ =>
-    match importFarmers (importPools { env with pools := [], farmers := [], queue := [], seq := 0, resp := [] } g.pools) g.farmers with
+    match importFarmers (importPools (wiped env) g.pools) g.farmers with
     | .error e => .error e
     | .ok s1 =>
       if !validParams g.params then pnc "invalid params"
-      else .ok { s1 with seq := g.seq, params := g.params }
+      else .ok { (importEscrow s1 g.escrow) with seq := g.seq, params := g.params }
 
 /-- the state after `InitGenesis(ExportGenesis(s))` on an emptied store (`s` itself if the
 import aborts: the harness discards a panicking import) -/
